@@ -191,6 +191,25 @@ def rule_hc12(prog):
             continue
         guard = any(isinstance(c, App) and c.op == 'in' and
                     c.args[0] == val and not pol for (c, pol) in p.pc)
+        if not guard:
+            # the other spelling of a miss: `try: return TABLE[value]` left
+            # through `except KeyError`
+            vname = tnew.node.args.args[1].arg if len(
+                tnew.node.args.args) > 1 else None
+            for (c, pol) in p.pc:
+                if isinstance(c, App) and c.op == 'implicit_exc' and pol \
+                        and c.args[0].v in ('KeyError', 'LookupError'):
+                    for t in ast.walk(tnew.node):
+                        if isinstance(t, ast.Try) and any(
+                                isinstance(x, ast.Subscript) and
+                                isinstance(x.slice, ast.Name) and
+                                x.slice.id == vname and
+                                isinstance(x.ctx, ast.Load)
+                                for b in t.body for x in ast.walk(b)) and \
+                                t.lineno <= c.args[1].v <= max(
+                                    getattr(b, 'end_lineno', b.lineno)
+                                    for b in t.body):
+                            guard = True
         stores = [e for e in p.log if e.kind == 'setitem' and
                   e.args[0] == val and e.args[1] == allocs[0].target]
         r1.inst(terminal=True, allocates=True, guarded_by_table_miss=guard,
